@@ -7,7 +7,7 @@ from pathlib import Path
 
 from hypothesis import strategies as st
 
-from ..common import HarnessError, Violation, hyp_run, import_auditok, tmpdir
+from ..common import lib_guard, HarnessError, Violation, hyp_run, import_auditok, tmpdir
 from ..gen import rarely
 from ..oracles import decode, exact_round
 from .c10 import content
@@ -32,19 +32,86 @@ RULE = (
 )
 MUST_HIT = ["skip_between_samples", "empty_slice", "lazy_reader", "wav_sw1", "wav_sw4", "placeholder_name",
             "exists_refused", "numpy_multichannel", "to_file_byteslike", "skip_beyond_65536_samples", "explicit_format", "to_file_typed_array", "more_than_1MiB", "same_path_rewritten",
-            "numpy_export_modified_then_exported_again"]
+            "numpy_export_modified_then_exported_again", "raw_content_starting_with_a_wav_header", "snapshot_of_16MiB_or_more"]
 ASSUMPTIONS = ["files are re-read with stdlib wave/open to judge the writer independently of the reader"]
 BOUNDS = {"quick": dict(n=500, maxN=200), "thorough": dict(n=6000, maxN=1500)}
 _ctr = [0]
 
 
+def other_filesystem_dir():
+    """a writable directory on another filesystem than the system's temporary directory, if there is one"""
+    import tempfile
+
+    for cand in ("/dev/shm",):
+        try:
+            if os.path.isdir(cand) and os.access(cand, os.W_OK) and os.stat(cand).st_dev != os.stat(tempfile.gettempdir()).st_dev:
+                return cand
+        except OSError:
+            pass
+    return None
+
+
+def wav_header(nbytes, sr, sw, ch):
+    import struct
+
+    return (b"RIFF" + struct.pack("<I", 36 + nbytes) + b"WAVEfmt " + struct.pack("<IHHIIH", 16, 1, ch, sr, sr * sw * ch, sw * ch)
+            + struct.pack("<H", 8 * sw) + b"data" + struct.pack("<I", nbytes))
+
+
+def check_snapshot(case, rec):
+    """What has been loaded eagerly is a snapshot: overwriting the file afterwards (in place, same
+    size) changes neither the region nor the source obtained before."""
+    sr, sw, ch, N = case["sr"], case["sw"], case["ch"], case["N"]
+    bps = sw * ch
+    data = content(N, bps, case["salt"])
+    other = bytes(255 - b for b in data[:4099]) * (len(data) // 4099 + 1)
+    other = other[: len(data)]
+    _ctr[0] += 1
+    path = os.path.join(tmpdir(), f"c18_snap_{os.getpid()}_{_ctr[0]}.raw")
+    try:
+        with open(path, "wb") as fp:
+            fp.write(data)
+        with lib_guard(lambda: case):
+            src = from_file(path, sampling_rate=sr, sample_width=sw, channels=ch)
+            reg = auditok.load(path, sampling_rate=sr, sample_width=sw, channels=ch)
+        with open(path, "r+b") as fp:  # same file, same size, other audio
+            fp.write(other)
+        with lib_guard(lambda: case):
+            src.open()
+            got = src.read(N + 1) or b""
+            src.close()
+            got_reg = bytes(reg)
+        if got != data:
+            raise Violation(f"an eagerly loaded source of {len(data)} bytes changed when the file was overwritten afterwards", case)
+        if got_reg != data:
+            raise Violation(f"a loaded region of {len(data)} bytes changed when the file was overwritten afterwards", case)
+    finally:
+        try:
+            os.remove(path)
+        except OSError:
+            pass
+    rec.note(case, True, {"eager_load_is_a_snapshot"} | ({"snapshot_of_16MiB_or_more"} if len(data) >= 2**24 else set()),
+             out={"bytes": len(data)})
+
+
 def check_case(case, rec):
+    if case.get("snapshot"):
+        return check_snapshot(case, rec)
     sr, sw, ch, N = case["sr"], case["sw"], case["ch"], case["N"]
     bps = sw * ch
     data = content(N, bps, case["salt"])
     classes = set()
+    if case.get("riff_prefix") and case["fmt"] == "raw" and len(data) >= 12:
+        # raw audio that happens to start like a wav file (here: a complete header for another format)
+        hdr = wav_header(max(len(data) - 44, 0), sr + 1, {1: 2, 2: 4, 4: 1}[sw], ch + 1)
+        data = hdr[: len(data)] + data[len(hdr):]
+        classes.add("raw_content_starting_with_a_wav_header")
     _ctr[0] += 1
-    d = os.path.join(tmpdir(), f"c18_{_ctr[0]}")
+    base_dir = tmpdir()
+    if case.get("other_fs") and other_filesystem_dir():
+        base_dir = other_filesystem_dir()
+        classes.add("directory_on_another_filesystem_than_tmp")
+    d = os.path.join(base_dir, f"c18_{os.getpid()}_{_ctr[0]}")
     os.makedirs(d, exist_ok=True)
     fmt = case["fmt"]
     how = case["fmt_how"]
@@ -281,6 +348,15 @@ def explicit_cases():
         dict(base, N=300000, sw=4, ch=1, sr=16000, fmt="raw", writer="to_file", data_kind="numpy", reader="load", skip=[299990, 0], mr=None, tmpl=None),
         dict(base, N=40, sw=2, ch=2, fmt="wav", writer="to_file", data_kind="array", reader="load", skip=None, mr=None, tmpl=None),
         dict(base, N=66000, sw=2, ch=1, sr=8000, fmt="raw", reader="load_lazy", skip=[65999, 0.25], mr=None, tmpl=None),
+        dict(base, fmt="raw", riff_prefix=True, N=40, tmpl=None, skip=None, mr=None),
+        dict(base, fmt="raw", riff_prefix=True, N=6, sw=2, ch=1, reader="from_file_eager", tmpl=None),
+        dict(base, fmt="raw", riff_prefix=True, N=200, sw=2, ch=2, reader="from_file_lazy", tmpl=None),
+        dict(base, other_fs=True),
+        dict(base, other_fs=True, fmt="raw", writer="to_file", reader="from_file_lazy", tmpl=None),
+        dict(base, snapshot=True, N=3000),
+        dict(base, snapshot=True, N=(1 << 20) + 77, sw=2, ch=1),
+        dict(base, snapshot=True, N=(1 << 23) + 1024, sw=2, ch=1),   # 16 MiB + 2 KiB
+        dict(base, snapshot=True, N=(1 << 24) + 5, sw=2, ch=2),      # 64 MiB
     ]
 
 
@@ -316,6 +392,10 @@ def strategy(draw, maxN):
                 skip=draw(st.one_of(st.none(), st.tuples(st.integers(0, N + 4), st.sampled_from([0, 0.25, 0.5, 0.75])).map(list),
                                  st.tuples(st.integers(max(N - 4000, 0), N + 4), st.sampled_from([0, 0.25])).map(list))),
                 mr=draw(st.one_of(st.none(), st.tuples(st.integers(0, N + 4), st.sampled_from([0, 0.25, 0.5, 0.75])).map(list))))
+    case["riff_prefix"] = fmt == "raw" and draw(rarely(5))
+    case["other_fs"] = draw(rarely(5))
+    if draw(rarely(25)):
+        case = dict(case, snapshot=True, N=draw(st.sampled_from([N, 5000, 70000, 300000])))
     return case
 
 
